@@ -328,6 +328,8 @@ IsEpOp(op)  == op \in {"ep_size_bin", "ep_write_bin", "ep_read_bin", "ep_pck", "
 CodecAccept(e) ==
     IF e.op \in {"curve_probe", "restart"} THEN TRUE
     ELSE IF Has(e, "crash") THEN FALSE
+    ELSE IF e.op = "alias" THEN /\ e.ro = e.rn /\ e.eo = e.en               \* in place = out of place:
+                                /\ ((e.ro # 0 /\ e.eo = 0) => e.o = e.n)    \* same verdict, same object unless refused
     ELSE IF IsBnOp(e.op) THEN BnCodec(e)
     ELSE IF IsFpOp(e.op) THEN FpCodec(e)
     ELSE IF e.op \in {"fp2_read_bin", "fp2_write_bin"} THEN Fp2CodecV(e, StrictV(e))
